@@ -677,6 +677,19 @@ def _solve_one(args):
     trig = _has_trig(fs)
     nonlinear = _has_nonlinear(fs)
     short = min(4000, timeout_ms)
+    hint = ob.meta.get("hint")
+    if hint:
+        # the strategy that discharged this obligation on the pristine tree (contracts/Cxx.hints.json, written only
+        # by --update-expected) goes first: any `unsat` is sound whichever strategy finds it, so the hint affects
+        # time and stability only.  Anything but `unsat` falls through to the full sequence below.
+        try:
+            rh = _hinted(ob, hint, trig, timeout_ms)
+            attempts.append(f"hint:{hint}={rh}")
+            if rh == z3.unsat:
+                backend = "cvc5" if hint == "cvc5" else ("z3+nl-abstraction" if "nl-abstraction" in hint else ("z3+instantiation" if ("inst" in hint or "hoisted" in hint) else "z3"))
+                return (idx, "discharged", backend, time.time() - t0, None, " ".join(attempts))
+        except Exception as e:
+            attempts.append(f"hint-error={type(e).__name__}:{e}")
     if ob.meta.get("solver") == "abstract-first":
         # deep nonlinear terms (unrolled iterations): hypotheses instantiated at the skolem constants, formulas
         # normalised by z3's simplifier, products/quotients abstracted (sound for unsat) -- before the plain attempt
@@ -788,6 +801,42 @@ def _solve_one(args):
     return (idx, "undecided", "none", time.time() - t0, None, " ".join(attempts))
 
 
+def _hinted(ob, tag, trig, timeout_ms):
+    """one strategy of _solve_one, selected by the tag it leaves in the attempts string"""
+    if tag == "z3[inst+simplify+nl-abstraction]":
+        return _z3_check(T.abstract_nonlinear([z3.simplify(f) for f in ob.formulas(extra_trig=trig, instantiate=True)]), min(timeout_ms, 15000))[0]
+    if tag == "z3[nl-abstraction]":
+        return _z3_retry(T.abstract_nonlinear(ob.formulas(extra_trig=False)), min(timeout_ms, 12000))[0]
+    if tag == "z3":
+        return _z3_retry(ob.formulas(extra_trig=False), min(timeout_ms, 8000))[0]
+    if tag in ("z3[trig]", "z3[full]"):
+        return _z3_check(ob.formulas(extra_trig=trig), timeout_ms)[0]
+    if tag == "z3[inst-lean]":
+        return _z3_retry(ob.formulas(extra_trig=trig, instantiate="lean"), min(timeout_ms, 12000))[0]
+    if tag == "z3[inst-lean+nl-abstraction]":
+        return _z3_retry(T.abstract_nonlinear(ob.formulas(extra_trig=trig, instantiate="lean")), min(timeout_ms, 12000))[0]
+    if tag == "z3[inst]":
+        return _z3_check(ob.formulas(extra_trig=trig, instantiate=True), min(timeout_ms, 10000))[0]
+    if tag == "z3[inst+nl-abstraction]":
+        return _z3_check(T.abstract_nonlinear(ob.formulas(extra_trig=trig, instantiate=True)), min(timeout_ms, 15000))[0]
+    if tag in ("z3[hoisted-ground+nl-abstraction]", "z3[hoisted-ground]"):
+        fg = [f for f in ob.formulas(extra_trig=trig, instantiate="hoisted") if T.quantifier_free(f)]
+        return _z3_check(T.abstract_nonlinear(fg) if "nl" in tag else fg, min(timeout_ms, 25000))[0]
+    if tag == "cvc5":
+        r = _cvc5_check(ob.formulas(extra_trig=trig), min(timeout_ms, 15000))
+        return z3.unsat if r == "unsat" else z3.unknown
+    return z3.unknown
+
+
+def winning_strategy(reason):
+    """tag of the strategy that returned unsat, from an obligation's attempts string"""
+    for tok in reversed((reason or "").split()):
+        if tok.endswith("=unsat"):
+            t = tok[:-len("=unsat")]
+            return t[5:] if t.startswith("hint:") else t
+    return None
+
+
 def _has_abstractions(fs):
     defined = T.defined_function_ids()
     ufs = {f.get_id() for f in list(T.UF1.values()) + list(T.UF2.values())}
@@ -850,7 +899,7 @@ def _worker(idx, timeout_ms, conn):
         conn.close()
 
 
-def solve(reports, timeout_ms=20000, procs=None):
+def solve(reports, timeout_ms=20000, procs=None, hints=None):
     """Discharges all obligations: one forked process per obligation (z3 terms are inherited, every
     worker starts from the same parent state, so verdicts do not depend on scheduling), at most
     `procs` at a time, each killed by the parent if it overruns its total budget."""
@@ -859,6 +908,8 @@ def solve(reports, timeout_ms=20000, procs=None):
     for rep in reports:
         for ob in rep.obligations:
             if ob.status is None:
+                if hints and ob.name in hints:
+                    ob.meta["hint"] = hints[ob.name]
                 _OBLS.append((ob, rep.mk.obs))
     n = len(_OBLS)
     if n == 0:
